@@ -183,6 +183,12 @@ func TestVerif_C10(t *testing.T) {
 		if err := ev.LoadReplay(&rp); err != nil {
 			t.Fatal(err)
 		}
+		if rp["sub"] == "bulk-size" {
+			size, _ := strconv.Atoi(rp["size"])
+			c10BigBulk(size, rp["nested"] == "true", br, r)
+			ev.Eval(1)
+			return
+		}
 		in, _ := hex.DecodeString(rp["input_hex"])
 		out := c10One(rp["sub"], in, br, r)
 		t.Logf("replay input %q -> %s (reference %v)", in, out, respref.Parse(in))
@@ -259,6 +265,71 @@ func TestVerif_C10(t *testing.T) {
 	if si == 1%sn {
 		c10Commands(t)
 		c10Itos(t)
+	}
+	// (e) payload sizes: one bulk of every size 2^k-1, 2^k, 2^k+1 for k = 6..24 (quick: ..21),
+	// alone and as the argument of a command; spread over the shards
+	maxK := 21
+	if ev.Thorough() {
+		maxK = 24
+	}
+	var nb int64
+	for k := 6; k <= maxK; k++ {
+		for d := -1; d <= 1; d++ {
+			for _, nested := range []bool{false, true} {
+				nb++
+				if !ev.Mine(nb) {
+					continue
+				}
+				c10BigBulk(1<<uint(k)+d, nested, br, r)
+				ev.Eval(1)
+				ev.Trace(1)
+				ev.Trans(1)
+				h := ev.HashS(fmt.Sprint("bulk-size", k, d, nested))
+				ev.State(h)
+				ev.Nontrivial(h)
+			}
+		}
+	}
+	ev.Bound("bulk_sizes", fmt.Sprintf("2^k-1, 2^k, 2^k+1 for k=6..%d", maxK))
+}
+
+// c10BigBulk round-trips one binary bulk of the given size (alone, or as the second argument
+// of a two-argument command) through encoder and decoder, also through a 4 KiB bufio.Reader.
+func c10BigBulk(size int, nested bool, br *countingReader, r *bufio.Reader) {
+	payload := make([]byte, size)
+	for i := range payload {
+		payload[i] = byte(i*131 + i>>8 + size)
+	}
+	node := &respref.Node{Kind: '$', Text: payload}
+	if nested {
+		node = &respref.Node{Kind: '*', Elems: []*respref.Node{leaf('$', "SET"), node}}
+	}
+	want := respref.Encode(node)
+	rep := map[string]string{"sub": "bulk-size", "size": strconv.Itoa(size), "nested": strconv.FormatBool(nested)}
+	got, err := EncodeToBytes(c10ToResp(node))
+	if err != nil || !bytes.Equal(got, want) {
+		ev.Violate("C10|encode-differs|bulk-size", fmt.Sprintf("Encode of a %d byte bulk (nested=%v) differs from the reference (%v)", size, nested, err), rep)
+		return
+	}
+	back, err := DecodeFromBytes(got)
+	if err != nil || !c10Equal(back, node) {
+		ev.Violate("C10|roundtrip|bulk-size", fmt.Sprintf("Encode->Decode of a %d byte bulk (nested=%v) does not return the value (%v)", size, nested, err), rep)
+		return
+	}
+	br.b, br.pos, br.chunk = want, 0, 0
+	r.Reset(br)
+	dec := NewDecoder(r)
+	back2, n, err := func() (x Resp, n int64, err error) {
+		defer func() {
+			if p := recover(); p != nil {
+				err = fmt.Errorf("panic: %v", p)
+			}
+		}()
+		x, n = MustDecodeOpt(dec)
+		return
+	}()
+	if err != nil || !c10Equal(back2, node) || n != int64(len(want)) {
+		ev.Violate("C10|stream-value|bulk-size", fmt.Sprintf("a %d byte bulk (nested=%v) read from a stream: err=%v, position %d of %d", size, nested, err, n, len(want)), rep)
 	}
 }
 
